@@ -160,8 +160,7 @@ func judgeB(cfg configB, r reqB, o *obsB, history string) []findingB {
 			ns, n, _ := strings.Cut(id, "/")
 			if !mayHoldKey(cfg, p, r.Names, ns, n) {
 				out = append(out, findingB{
-					fmt.Sprintf("b:key-leak|scheme=%s|secret-in=%s|requester-sar=%s|verified-ref=%v|%s",
-						scheme(res.Name), relation(p, ns), sarFor(cfg, p), contains(cfg.refsOf(p), res.Name), where),
+					leakKey(scheme(res.Name), relation(p, ns), sarFor(cfg, p), contains(cfg.refsOf(p), res.Name), where),
 					fmt.Sprintf("resource %q returned to %s (verified %s/%s) carries %s; RBAC %q answers %s for this identity, verified references %v: not entitled",
 						res.Name, p.Label, p.VNS, p.VSA, k, cfg.RBAC.Name, sarFor(cfg, p), cfg.refsOf(p)),
 				})
@@ -180,6 +179,22 @@ func judgeB(cfg configB, r reqB, o *obsB, history string) []findingB {
 		}
 	}
 	return out
+}
+
+// leakKey: the requester's RBAC answer only matters for secrets of its own namespace.
+func leakKey(scheme, rel, sar string, ref bool, where string) string {
+	if rel != "own-namespace" {
+		sar = "any"
+	}
+	return fmt.Sprintf("b:key-leak|scheme=%s|secret-in=%s|requester-sar=%s|verified-ref=%v|%s", scheme, rel, sar, ref, where)
+}
+
+func keyCount(o *obsB) int {
+	n := 0
+	for _, r := range o.Resources {
+		n += len(r.Keys)
+	}
+	return n
 }
 
 func scheme(name string) string {
@@ -310,11 +325,19 @@ func (x *runnerB) runHistory(cfg configB, h []reqB, verbose func(string)) (outco
 				}
 			}
 			fs = kept
-			if c.canon() != o.canon() {
+			// a difference that already shows as a leak / withheld key of this response is that finding
+			if c.canon() != o.canon() && len(fs) == 0 {
 				p := proxiesB[r.Proxy]
+				effect := "other-difference"
+				switch a, b := keyCount(o), keyCount(c); {
+				case a > b:
+					effect = "gains-private-key"
+				case a < b:
+					effect = "loses-private-key"
+				}
 				fs = append(fs, findingB{
-					fmt.Sprintf("b:order-dependent|scheme=%s|push=%s|earlier-requesters=%s", schemes(r.Names), pushKind(r.Push), earlier(p, h[:i])),
-					fmt.Sprintf("after {%s}, %s asking %q (%s) gets %s, but from a cold stack the same request gets %s", past, p.Label, r.Names, pushNames[r.Push], brief(o), brief(c)),
+					fmt.Sprintf("b:order-dependent|scheme=%s|push=%s|effect=%s", schemes(r.Names), pushKind(r.Push), effect),
+					fmt.Sprintf("after {%s} (earlier requesters: %s), %s asking %q (%s) gets %s, but from a cold stack the same request gets %s", past, earlier(p, h[:i]), p.Label, r.Names, pushNames[r.Push], brief(o), brief(c)),
 				})
 			}
 		}
@@ -375,13 +398,21 @@ func newSpaceB(thorough bool) *spaceB {
 		sp.proxies3 = []int{0, 1, 2, 3, 5}
 	}
 	rb := rbacConfigs(thorough)
-	for _, r := range rb {
-		for _, f := range refsConfigs {
+	for ri, r := range rb {
+		for fi, f := range refsConfigs {
 			c := configB{RBAC: r, Refs: f}
 			sp.cfgs = append(sp.cfgs, c)
-			// quick: the three-request histories run under a core of the configurations
-			if thorough || (f.Name != refsConfigs[2].Name && (r.Name == "all-allow" || r.Name == "all-error" || r.Name == "only-ns1/sa1")) {
+			// the three-request histories run under a core of the configurations: quick 3 RBAC tables x
+			// {no reference, one grant}; thorough every RBAC table x {no reference, one grant}
+			core := r.Name == "all-allow" || r.Name == "all-error" || r.Name == "only-ns1/sa1"
+			if fi < 2 && (thorough || core) {
 				sp.cfgs3 = append(sp.cfgs3, c)
+			}
+		}
+		if thorough && ri < 6 {
+			// every assignment of subsets of {gateway ns1/s, gateway ns2/s} to the two routers
+			for _, f := range allRefSets() {
+				sp.cfgs = append(sp.cfgs, configB{RBAC: r, Refs: f})
 			}
 		}
 	}
@@ -396,7 +427,7 @@ func newSpaceB(thorough bool) *spaceB {
 		// longer alphabet for the three-request histories
 		sp.core = nil
 		for i, n := range namesB {
-			if n.Core || i < 16 {
+			if n.Core || i < 12 {
 				sp.core = append(sp.core, n.Name)
 			}
 		}
@@ -411,6 +442,33 @@ func newSpaceB(thorough bool) *spaceB {
 	}
 	sp.sets1 = append(sp.sets1, append([]string(nil), sp.all...))
 	return sp
+}
+
+func allRefSets() []refsB {
+	univ := []string{"kubernetes-gateway://ns1/s", "kubernetes-gateway://ns2/s"}
+	var out []refsB
+	for m1 := 0; m1 < 4; m1++ {
+		for m2 := 0; m2 < 4; m2++ {
+			pick := func(m int) []string {
+				l := []string{}
+				for i, u := range univ {
+					if m&(1<<i) != 0 {
+						l = append(l, u)
+					}
+				}
+				return l
+			}
+			r1, r2 := pick(m1), pick(m2)
+			if (m1 == 0 && m2 == 0) || (m1 == 2 && m2 == 0) {
+				continue // "none" and the single grant are in refsConfigs already
+			}
+			out = append(out, refsB{
+				Name: fmt.Sprintf("subsets:router-ns1-sa1->%v;router-ns2-sa2->%v", r1, r2),
+				Refs: map[string][]string{"router-ns1-sa1": r1, "router-ns2-sa2": r2},
+			})
+		}
+	}
+	return out
 }
 
 // each calls f(ord, cfg, history) for every case: block 1 single requests (all name sets, all push
@@ -473,7 +531,7 @@ func (sp *spaceB) each(f func(ord int64, block int, cfg configB, h []reqB) bool)
 func TestC11b(t *testing.T) {
 	env := engine.GetEnv()
 	res := engine.NewResult("C11", "b-sds")
-	res.Rule = "case = (RBAC table answering SubjectAccessReviews, verified-reference sets) x a history of 1-3 SDS requests (proxy in {unauthenticated, ns1/sa1 router, ns2/sa2 router, ns1/sa3 sidecar, ns1/sa1 router with empty namespace claim, ns2/sa1 router} x resource name(s) x push kind) run through the real SecretGen.Generate on ONE fresh stack (real XdsCache + real kube CredentialsController with its authorization cache over a fake client holding key material in ns1 and ns2); block 1: every single request with every name, every pair of names and all names at once, 3 push kinds; block 2: every ordered pair of single-name requests over all names (the second one also as incremental push for Secret ns1/s and ns2/s: quick between core names, thorough everywhere); block 3: every ordered triple of full-push requests over the core names (quick: the first 4 proxies, 12 names, 6 configurations; thorough: 5 proxies, 22 names, all configurations); every response is judged (leak / unauthenticated / withheld) and, from the second request on, compared with the cold-stack response to the same request; non-trivial = some requested well-formed name denotes an existing secret with key material, and for histories additionally the shared cache was hit or two different proxies asked for the same name"
+	res.Rule = "case = (RBAC table answering SubjectAccessReviews, verified-reference sets) x a history of 1-3 SDS requests (proxy in {unauthenticated, ns1/sa1 router, ns2/sa2 router, ns1/sa3 sidecar, ns1/sa1 router with empty namespace claim, ns2/sa1 router} x resource name(s) x push kind) run through the real SecretGen.Generate on ONE fresh stack (real XdsCache + real kube CredentialsController with its authorization cache over a fake client holding key material in ns1 and ns2); block 1: every single request with every name, every pair of names and all names at once, 3 push kinds; block 2: every ordered pair of single-name requests over all names (the second one also as incremental push for Secret ns1/s and ns2/s: quick between core names, thorough everywhere); block 3: every ordered triple of full-push requests over the core names (quick: the first 4 proxies, 12 names, 6 configurations; thorough: 5 proxies, 16 names, every RBAC table x {no reference, one grant}); every response is judged (leak / unauthenticated / withheld) and, from the second request on, compared with the cold-stack response to the same request; non-trivial = some requested well-formed name denotes an existing secret with key material, and for histories additionally the shared cache was hit or two different proxies asked for the same name"
 	defer res.Write(t, env)
 	w := newWorldB()
 	defer w.close()
